@@ -461,10 +461,30 @@ class Engine(object):
             self.obligations[name] = Obligation(name)
         return self.obligations[name]
 
+    def valid(self, cond, timeout=20000):
+        """Validity of cond under the current path condition, for contract code that decides a clause over many
+        heap items before stating the obligation; the solver time is charged to the next obligation recorded."""
+        if isinstance(cond, bool):
+            return cond
+        t0 = time.time()
+        s = z3.Solver(); s.set('timeout', timeout); s.add(*self.pc); s.add(z3.Not(cond))
+        r = s.check() == z3.unsat
+        dt = time.time() - t0
+        self.aux_seconds = getattr(self, 'aux_seconds', 0.0) + dt
+        self.aux_queries = getattr(self, 'aux_queries', 0) + 1
+        self.solver_seconds += dt
+        return r
+
+    def _charge_aux(self, ob):
+        ob.seconds += getattr(self, 'aux_seconds', 0.0)
+        ob.queries += getattr(self, 'aux_queries', 0)
+        self.aux_seconds, self.aux_queries = 0.0, 0
+
     def prove(self, cond, name, detail=''):
         """Obligation: on the current path, cond holds.  cond may be bool or z3 Bool."""
         ob = self.obligation(name)
         ob.paths += 1
+        self._charge_aux(ob)
         if is_z3(cond):
             cond = concretize(cond)
         if cond is True:
@@ -508,6 +528,7 @@ class Engine(object):
     def fail(self, name, why, model=None):
         ob = self.obligation(name)
         ob.paths += 1
+        self._charge_aux(ob)
         if model is None:
             s = z3.Solver(); s.set('timeout', self.timeout_ms); s.add(*self.pc)
             if s.check() == z3.sat:
